@@ -265,10 +265,14 @@ func c03JSONRequest(c *core.Ctx) bool {
 		Age  int
 		Ok   bool
 		Tags []string
+		Code string
+		Big  string
 	}
-	sch := z.Struct(z.Schema{"name": z.String(), "age": z.Int(), "ok": z.Bool(), "tags": z.Slice(z.String())})
+	// (code / big: JSON numbers into String leaves - a number a float64 holds exactly arrives as that float64 and prints as %v prints
+	// a float64; an integer no float64 holds arrives as the integer)
+	sch := z.Struct(z.Schema{"name": z.String(), "age": z.Int(), "ok": z.Bool(), "tags": z.Slice(z.String()), "code": z.String(), "big": z.String()})
 	age := c.R.Range(1, 90)
-	body := fmt.Sprintf(`{"name":%q,"age":%d,"ok":true,"tags":["a","b"]}`, gen.Word(c.R), age)
+	body := fmt.Sprintf(`{"name":%q,"age":%d,"ok":true,"tags":["a","b"],"code":9007199254740994,"big":9007199254740993}`, gen.Word(c.R), age)
 	var wantName string
 	_ = json.Unmarshal([]byte(body[8:strings.Index(body, ",")]), &wantName)
 	for _, ct := range c03JSONContentTypes {
@@ -278,7 +282,7 @@ func c03JSONRequest(c *core.Ctx) bool {
 			var d dst
 			issues := sch.Parse(zhttp.Request(r), &d)
 			c.Eval(1)
-			if issues != nil || d.Name != wantName || d.Age != age || !d.Ok || strings.Join(d.Tags, ",") != "a,b" {
+			if issues != nil || d.Name != wantName || d.Age != age || !d.Ok || strings.Join(d.Tags, ",") != "a,b" || d.Code != fmt.Sprintf("%v", float64(9007199254740994)) || d.Big != "9007199254740993" {
 				c.Violation("destination-is-not-documented-coercion|json-body-through-zhttp", map[string]any{"method": method, "content_type": ct, "body": body, "url_query": "name=from-query&age=99&ok=false&tags=q",
 					"destination": fmt.Sprintf("%+v", d), "issues": fmt.Sprint(z.Issues.SanitizeMap(issues))})
 				return false
